@@ -56,7 +56,7 @@ class Model:
         z = np.asarray([m[order * d + k] - f[k] for k in range(d)], dtype=object)
         return mpl.M(H), z
 
-    def residual_noise(self, m_pred, absPhi_m, t, c=20.0):
+    def residual_noise(self, m_pred, absPhi_m, t, c=100.0):
         """Bound on the float64 rounding noise in z = x[order] - f(x[:order], t) when x = Phi m is itself
         computed in float64: c*eps*(|Phi||m| rows + sum of |terms of f| + |J| |Phi||m|)."""
         eps = 2.0**-52
